@@ -51,10 +51,20 @@ func abs64(x int64) int64 {
 	return x
 }
 
+var c10Calls int
+
 func genC10(r *Rng, e *Emitter, n int) {
 	emit := func(a, b, c geom.Coord) {
 		in := fmt.Sprintf("(%s %s %s)", sxCoord(a), sxCoord(b), sxCoord(c))
 		a, b, c = slot(0, a...), slot(1, b...), slot(2, c...) // the caller's buffers are reused for every call
+		c10Calls++
+		if c10Calls%5 == 0 {
+			// the package's other function in between: it shares nothing with the predicate
+			func() {
+				defer func() { _ = recover() }()
+				bigxy.Intersection(geom.Coord{0, 0}, geom.Coord{float64(c10Calls % 17), 3}, geom.Coord{0, 4}, geom.Coord{5, -1})
+			}()
+		}
 		e.pending("C10.orient", in)
 		e.emit("C10.orient", in, guard(func() string {
 			return fmt.Sprintf("(%d %d %d)", int(bigxy.VerifOrientationIndexFilter(a, b, c)), int(bigxy.OrientationIndex(a, b, c)), int(xy.OrientationIndex(a, b, c)))
